@@ -21,12 +21,18 @@ InsertSorted(sorted, mem) == IF sorted = <<>> THEN <<mem>>
 RECURSIVE SortMembers(_)
 SortMembers(m) == IF m = <<>> THEN <<>> ELSE InsertSorted(SortMembers(Tail(m)), m[1])
 
+\* number equality as cJSON_Utils decides it (compare_json, create_patches): the integer views are compared as well as the doubles.
+\* It differs from NumEq (C12) exactly on pairs within the tolerance that straddle an integer (0.99999999999999989 and 1): named
+\* deviation, see DESIGN 12; the universes of MC_Patch keep such pairs apart (Straddle).
+UtilNumEq(x, y) == NumInt[x] = NumInt[y] /\ NumEq(x, y)
+Straddle(x, y) == NumEq(x, y) /\ NumInt[x] # NumInt[y]
+
 \* ---- compare_json (the test operation): NULL operands are passed as Missing ----
 Missing == Mk("missing")
 RECURSIVE CompareJson(_, _)
 CompareJson(a, b) ==
   IF a.t = "missing" \/ b.t = "missing" \/ a.t # b.t THEN FALSE
-  ELSE CASE a.t = "num" -> NumEq(a.n, b.n)                      \* valueint equal and compare_double
+  ELSE CASE a.t = "num" -> UtilNumEq(a.n, b.n)                  \* valueint equal and compare_double
          [] a.t = "str" -> a.s = b.s
          [] a.t = "arr" -> /\ Len(a.m) = Len(b.m) /\ \A i \in DOMAIN a.m : CompareJson(a.m[i].v, b.m[i].v)
          [] a.t = "obj" -> LET x == SortMembers(a.m) y == SortMembers(b.m) IN
@@ -132,7 +138,7 @@ RECURSIVE ArrayPatches(_, _, _, _)
 RECURSIVE ObjectPatches(_, _, _, _, _)
 CreatePatches(path, from, to) ==                 \* sequence of operation objects
   IF from.t # to.t THEN <<PatchOpV(OpReplace, path, to)>>
-  ELSE CASE from.t = "num" -> IF ~NumEq(from.n, to.n) THEN <<PatchOpV(OpReplace, path, to)>> ELSE <<>>
+  ELSE CASE from.t = "num" -> IF ~UtilNumEq(from.n, to.n) THEN <<PatchOpV(OpReplace, path, to)>> ELSE <<>>
          [] from.t = "str" -> IF from.s # to.s THEN <<PatchOpV(OpReplace, path, to)>> ELSE <<>>
          [] from.t = "arr" -> ArrayPatches(path, from.m, to.m, 1)
          [] from.t = "obj" -> ObjectPatches(path, SortMembers(from.m), SortMembers(to.m), 1, 1)
